@@ -403,7 +403,7 @@ class C33(Prop):
         """(python value, case value in the real iteration order, bytes | None) — built once per case"""
         key = json.dumps(c, sort_keys=True)
         if key not in self._memo:
-            if len(self._memo) > 20000:
+            if len(self._memo) > 400000:      # impl() of every case runs before model_lines(): never evict within a run
                 self._memo.clear()
             t, v = c['type'], c['value']
             x = self.H.to_py(t, v)
